@@ -573,6 +573,12 @@ def d3(ck: Check) -> None:
                          f"kept as soon as SOME parent does (with `all`, a node below one safe and one unsafe parent is lost and the "
                          f"paths through the unsafe parent get no succession)")
     if first is None:
+        hot_ = text(adds[0].func.value)
+        for n in own_walk(f.node):
+            if isinstance(n, (ast.ListComp, ast.SetComp, ast.GeneratorExp, ast.DictComp)) \
+                    and any(isinstance(y, ast.Name) and y.id == hot_ for g_ in n.generators for t_ in g_.ifs for y in ast.walk(t_)):
+                raise AnalysisError(f"line {n.lineno}: the end points of successions_to_target are selected by comprehension filters over "
+                                    f"`{hot_}`; this form of the selection is not followed (anchor: skip test of the end-point loop)")
         probs.append("nodes that reach a forbidden node are not excluded from the end points (no recognised test "
                      "`descendants-or-self & forbidden` / `node in reach-set` skips them)")
     ck.ob("D3", fm, first if first is not None else f.node, not probs, "; ".join(probs) if probs else
